@@ -520,8 +520,15 @@ fn law_linearity(tier: Tier, f: usize, ix: &[usize], sr: u32, sigs: &[usize], ev
 		}
 	}
 	let ncoef = tier.pick(2, 3);
+	// pure scaling also far below full scale (powers of two: exact in f32 as long as nothing underflows)
+	let mut coefs: Vec<(f32, f32)> = COEFS[..ncoef].to_vec();
+	coefs.push((1.0 / 4096.0, 0.0));
+	coefs.push((1.0 / 1048576.0, 0.0));
 	for (i, j) in pairs {
-		for &(a, b) in &COEFS[..ncoef] {
+		for &(a, b) in &coefs {
+			if i != j && a.abs() < 0.01 {
+				continue; // the quiet scalings: once per signal
+			}
 			if i == j && b != 0.0 {
 				continue; // x with itself: scaling only
 			}
@@ -778,7 +785,7 @@ impl Check for C13 {
 	}
 	fn rule(&self) -> String {
 		format!(
-			"full product lattice of every built-in effect ({} points: filter 4 modes x 5 cutoffs x 4 resonances x 5 mixes; EQ 3 kinds x 5 frequencies x 4 gains x 4 q; delay 3 times x 3 feedbacks x 5 mixes x {{plain, band-pass filter in the feedback loop, delay in the feedback loop}}; reverb 3 feedbacks x 3 dampings x 3 widths x 5 mixes; compressor 3 thresholds x 3 ratios x 3 attacks x 3 releases x 2 make-up gains x 2 mixes; distortion 2 kinds x 5 drives x 5 mixes; volume 5; panning 7; the values are the documented edges, one interior value and one value beyond every internal clamp) x sample rates (quick {{8000,44100,48000,192000}}, thorough + {{22050,96000}}) = one case each; per case: 7 input signals (impulse, step, DC, full-scale alternating, ramp, 1e-40 denormal, 64-entry noise table; left != right) x long run in 128-frame calls (quick 2^12, thorough 2^16 frames: finite + identity clauses), zero input into a fresh effect, superposition/scaling over signal pairs x coefficient pairs for the linear effects (quick: ring of 6 pairs x 2 coefficient pairs, thorough: all 15 pairs x 3), all 128 compositions of 8 frames on a fresh effect and of 128 consecutive 8-frame blocks inside a warm stream, 6 partitions of 256-frame blocks. An evaluation = one complete run of one effect instance over one input; it is non-trivial when its output contains a non-zero sample",
+			"full product lattice of every built-in effect ({} points: filter 4 modes x 5 cutoffs x 4 resonances x 5 mixes; EQ 3 kinds x 5 frequencies x 4 gains x 4 q; delay 3 times x 3 feedbacks x 5 mixes x {{plain, band-pass filter in the feedback loop, delay in the feedback loop}}; reverb 3 feedbacks x 3 dampings x 3 widths x 5 mixes; compressor 3 thresholds x 3 ratios x 3 attacks x 3 releases x 2 make-up gains x 2 mixes; distortion 2 kinds x 5 drives x 5 mixes; volume 5; panning 7; the values are the documented edges, one interior value and one value beyond every internal clamp) x sample rates (quick {{8000,44100,48000,192000}}, thorough + {{22050,96000}}) = one case each; per case: 7 input signals (impulse, step, DC, full-scale alternating, ramp, 1e-40 denormal, 64-entry noise table; left != right) x long run in 128-frame calls (quick 2^12, thorough 2^16 frames: finite + identity clauses), zero input into a fresh effect, superposition/scaling over signal pairs x coefficient pairs for the linear effects (quick: ring of 6 pairs x 2 coefficient pairs, thorough: all 15 pairs x 3; plus pure scaling of every signal by 2^-12 and 2^-20, tolerance relative to the scaled peak), all 128 compositions of 8 frames on a fresh effect and of 128 consecutive 8-frame blocks inside a warm stream, 6 partitions of 256-frame blocks. An evaluation = one complete run of one effect instance over one input; it is non-trivial when its output contains a non-zero sample",
 			num_cfgs()
 		)
 	}
